@@ -81,6 +81,9 @@ def guided_path(rng, toks):
     s = "".join(out)
     if rng.chance(1, 6):
         s += rng.choice(["", "/", "/a", "a", "\n", "/ab/B"])
+    if len(s) > 1 and rng.chance(1, 5):       # drop one character (e.g. "a//B" -> "a/B": one separator where the glob has two)
+        i = rng.below(len(s))
+        s = s[:i] + s[i + 1:]
     return s
 
 
@@ -544,6 +547,30 @@ def _balanced(binary, lines):
     return res
 
 
+# characters OUTSIDE the modelled case-folding domain whose lower/upper-casing is context sensitive, multi-character or
+# finer than the regex engine's simple case folding: differential-free, oracle only
+BEYOND = ["σ", "ς", "Σ", "ſ", "s", "S", "\u212a", "k", "K", "ϑ", "ϴ", "θ", "Θ", "ẞ", "ß", "İ", "ı", "i", "I", "Α", "α",
+          "\u212b", "å", "Å", "µ", "μ", "Μ", "ǅ", "ǆ", "Ǆ", "ŉ", "ΐ", "ΐ", "ᾳ", "ᾼ", "Ω", "\u2126", "ω"]
+
+
+def beyond_domain_cases():
+    """globs `/Α<c>*/f`, `<c>x*/f`, `/Α<c>/<c>` with -i x paths `/Α<d>Α/f`, `/Α<d>/f`, `<d>x/f`, `<d>xy/f`, `/Α<d>/<d>`:
+    model-free conservativity (full match => every ancestor admitted), Pattern and selector level"""
+    out = []
+    for c in BEYOND:
+        lit = "\\" + c
+        ds = [d for d in BEYOND]
+        p1 = ["/Α" + d + "Α/f" for d in ds] + ["/Α" + d + "/f" for d in ds] + ["/Α" + d + "/" + d for d in ds]
+        p2 = [d + "x/f" for d in ds] + [d + "xΑ/f" for d in ds] + ["Α" + d + "/" + d + "Α/f" for d in ds]
+        out.append(Case("D", 1, [], p1, glob="/Α" + lit + "*/f"))
+        out.append(Case("D", 1, [], p1, glob="/Α" + lit + "/" + lit))
+        out.append(Case("D", 1, [], p2, glob=lit + "x*/f"))
+        out.append(Case("D", 1, [], p2, glob="Α" + lit + "/" + lit + "*/f"))
+        out.append(Case("S", 1, [], p2, glob=lit + "x*/f"))
+        out.append(Case("S", 1, [], p2, glob="Α" + lit + "/" + lit + "*/f"))
+    return out
+
+
 def run_both(lines, model):
     impl = _balanced(GLOB, lines)
     mod = _balanced(model, lines)
@@ -712,6 +739,20 @@ def run(ctx):
                       % (c.glob, " with -i" if c.ci else "", " as the include path of PathSelector(%s)" % BASE if c.mode == "S" else "",
                          "matches" if g == "1" else "does not match", path, len(sem_fails)),
                       replay_payload(one, "", "", {"path": path, "impl_matches": g == "1"}), found_input=True)
+    # --- 1d. case folding beyond the modelled domain: implementation + model-free oracle only -------------
+    bcases = beyond_domain_cases()
+    bimpl = _balanced(GLOB, [c.line for c in bcases])
+    nb_match = 0
+    for c, il in zip(bcases, bimpl):
+        ctx.count(len(c.paths))
+        if il == "panic":
+            panics.append((len(c.glob), c.mode, c.ci, c, il, ""))
+        nb_match += sum(1 for r in il.split(" ")[2:] if r[0] == "1") if il.startswith("ok ") else 0
+        for path, d in oracle(c, il):
+            oracle_fails.append((len(c.glob), len(path), c.mode, c.ci, c, il, "(not modelled: beyond the case-folding domain)", path, d))
+    ctx.bump("sweep", "beyond_domain_case_folding_pairs", sum(len(c.paths) for c in bcases))
+    ctx.extra["beyond_domain_full_matches_checked_for_conservativity"] = nb_match
+
     if panics:
         _, _, _, case, il, ml = min(panics, key=lambda t: t[:3])
         ctx.violation_counts["glob_panics"] = len(panics)
@@ -775,7 +816,53 @@ def run(ctx):
                 if o:
                     found = (c, l, o[0])
                     break
-        if found:
+        # second neighbourhood search, for the "matches iff the documented semantics say so" half: sub-globs of the
+        # disagreeing globs that consist of tokens with a fixed documented meaning, evaluated by the implementation and
+        # by the independent python reference matcher on an enlarged path set (bounded paths, paths derived from the
+        # glob, and those with one character dropped or doubled)
+        sem_found, evaluator_used = None, False
+        if not found and not have_input:
+            nb, seen = [], set()
+            pa = all_paths(3)[:240]
+            for m in sorted(mismatches, key=lambda m: (len(m[0].glob), len(m[0].line)))[:60]:
+                toks = m[0].toks
+                for i in range(len(toks)):
+                    for j in range(i + 1, min(len(toks), i + 6) + 1):
+                        sub = tuple(toks[i:j])
+                        if sub in seen or not all(t in REF_TOKENS for t in sub) or ref_ast(list(sub)) is None:
+                            continue
+                        seen.add(sub)
+                        gp = [guided_path(ctx.rng, list(sub)) for _ in range(24)]
+                        var = []
+                        for q in gp[:8]:
+                            var += [q[:k] + q[k + 1:] for k in range(len(q))] + [q[:k] + q[k] + q[k:] for k in range(len(q))]
+                        for ci in (0, 1):
+                            nb.append(Case("D", ci, list(sub), pa + gp + var[:120]))
+                if len(nb) > 4000:
+                    break
+            if nb:
+                evaluator_used = True
+                nimpl = _balanced(GLOB, [c.line for c in nb])
+                bad = []
+                for c, l in zip(nb, nimpl):
+                    if not l.startswith("ok "):
+                        continue
+                    ref = _ref_job(("D", c.toks, bool(c.ci), c.paths))
+                    got = "".join(r[0] for r in l.split(" ")[2:])
+                    if ref is not None and got != ref:
+                        for q, g, r in zip(c.paths, got, ref):
+                            if g != r:
+                                bad.append((len(c.glob), len(q), c.ci, c, q, g))
+                if bad:
+                    sem_found = min(bad, key=lambda t: t[:3])
+        if sem_found:
+            _, _, _, c, q, g = sem_found
+            ctx.violation({"kind": "glob_semantics"},
+                          "glob %r%s %s %r, contrary to the documented semantics (independent reference matcher; found in the neighbourhood "
+                          "of a model/implementation disagreement: %s)" % (c.glob, " with -i" if c.ci else "", "matches" if g == "1" else "does not match", q, what),
+                          replay_payload(Case("D", c.ci, c.toks, [q], c.glob), "", "", {"path": q, "impl_matches": g == "1",
+                                                                                       "disagreeing_cases": len(mismatches)}), found_input=True)
+        elif found:
             c, l, (p, d) = found
             ctx.violation({"kind": "ancestor_pruned"}, "glob %r fully matches %r but directory %r is rejected (found in the neighbourhood of a "
                           "model/implementation disagreement: %s)" % (c.glob, p, d, what), replay_payload(c, l, "", {"path": p, "dir": d}), True)
@@ -785,7 +872,11 @@ def run(ctx):
                           "model GlobModel.v and the implementation disagree on glob %r (%s%s): %s; %d disagreeing cases; no input "
                           "violating the pruning oracle found in the neighbourhood" % (case.glob, case.mode, " -i" if case.ci else "", what, len(mismatches)),
                           replay_payload(minimal, il, ml, {"disagreeing_cases": len(mismatches),
-                                                           "more": [m[0].glob for m in mismatches[1:12]]}), found_input=False)
+                                                           "more": [m[0].glob for m in mismatches[1:12]],
+                                                           "independent_evaluator": ("python reference matcher agreed with the implementation on every "
+                                                                                     "sub-glob with a fixed token meaning" if evaluator_used else
+                                                                                     "no independent evaluator applies to the disagreeing globs "
+                                                                                     "(tokens without a fixed documented meaning)")}), found_input=False)
         else:
             core.log("model/implementation disagreement on %d cases (first: %r: %s)" % (len(mismatches), case.glob, what))
     if fp_bad:
